@@ -29,7 +29,10 @@ var props = map[string]propSpec{
 		{Name: "fwd", Quick: 300, Thorough: 600, Args: []string{"-prop", "C03"}},
 		{Name: "bbox", NoRewrite: true, Quick: 300, Thorough: 1800, Args: []string{"-prop", "C03"}},
 		{Name: "fwd", Quick: 300, Thorough: 900, Args: []string{"-prop", "C06", "-report", "C03", "-scn", "c06/plain"}},
+		{Name: "c01", Quick: 300, Thorough: 900, Args: []string{"-prop", "C03"}},
+		{Name: "joined", Quick: 300, Thorough: 900, Args: []string{"-prop", "C03"}},
 	}, Assume: []string{
+		"the proxy's half of the response path (harnesses c01 and joined): concurrent clients whose responses carry a token in status, headers, body, a declared and an undeclared trailer, uploads overlapping in every order up to the bound",
 		"retried uploads (harness fwd, fault plans without lingering readers): what an acknowledged attempt carried is what the client receives, so it must be the unaltered response too",
 		"input axis (harness bbox): the real proxy and agent binaries built from the current tree, driven over loopback by a raw TCP client and a scripted raw TCP backend; framing fields (Content-Length, Transfer-Encoding) and the reason phrase are outside the comparison; entity headers may be missing on HEAD/204/304; h2c backends are not covered",
 		"handler scripts follow httputil.ReverseProxy's use of http.ResponseWriter; zero-length writes are excluded because ReverseProxy's copy loop never issues them",
